@@ -62,6 +62,9 @@ MUTANTS = {
 }
 
 
+HARMLESS = {"x03a"}      # behaviour-preserving rewrites
+
+
 def make_copy():
     d = tempfile.mkdtemp(prefix="zi-mut-", dir=os.environ.get("TMPDIR") or "/var/tmp")
     shutil.copytree(os.path.join(REPO, "src"), os.path.join(d, "src"), ignore=shutil.ignore_patterns("*.so", "__pycache__"))
@@ -150,6 +153,13 @@ def main():
                 if c == 1 and not any(l.startswith("VIOLATION") for l in lines):
                     c = 2
                 verdict = "CAUGHT" if c == 1 else ("INFRA" if c == 2 else "MISSED")
+                if mid in HARMLESS:
+                    # a behaviour-preserving rewrite: the right outcome is NO alarm
+                    verdict = "QUIET-AS-EXPECTED" if c == 0 else "FALSE-ALARM"
+                    print("%-8s %s %s %.1fs %s" % (mid, prop, verdict, t, " | ".join(lines[:2])[:300]))
+                    if c != 0:
+                        missed.append((mid, prop))
+                    continue
                 print("%-8s %s %s %.1fs %s" % (mid, prop, verdict, t, " | ".join(lines[:2])[:300]))
                 if c != 1:
                     missed.append((mid, prop))
